@@ -88,3 +88,29 @@ fn c16_refused_welcome_leaves_no_group() {
     assert!(b.get_group(&gid).unwrap().is_none(), "a refused invitation left a group record behind");
     assert!(b.get_groups().unwrap().is_empty());
 }
+
+/// C16-O1 / C06: an invitation that the store refuses on input grounds (here: the rumor is larger than the SQLite
+/// backend's event-size limit) must leave nothing behind -- in particular no pending group carrying the inviter's data.
+#[test]
+fn c16_oversized_welcome_leaves_no_group_sqlite() {
+    use mdk_sqlite_storage::MdkSqliteStorage;
+    let (ak, a) = ident();
+    let bk = nostr::Keys::generate();
+    let b = MDK::new(MdkSqliteStorage::new_unencrypted(":memory:").unwrap());
+    let cfg = NostrGroupConfigData::new("g".into(), "d".into(), None, None, None, vec![relay()], vec![ak.public_key()]);
+    let res = a.create_group(&ak.public_key(), vec![kp(&bk, &b)], cfg).unwrap();
+    let gid = res.group.mls_group_id.clone();
+    let mut rumor = res.welcome_rumors[0].clone();
+    let mut tags: Vec<Tag> = rumor.tags.clone().to_vec();
+    tags.push(Tag::custom(TagKind::Custom("client".into()), ["x".repeat(150 * 1024)]));
+    rumor.tags = nostr::Tags::from_list(tags);
+    rumor.id = None;
+    rumor.ensure_id();
+    let r = b.process_welcome(&EventId::from_byte_array([4; 32]), &rumor);
+    if r.is_ok() {
+        return; // accepted: nothing to check here
+    }
+    assert!(b.get_group(&gid).unwrap().is_none(), "a refused (oversized) invitation left a group record behind: {:?}", r.err());
+    assert!(b.get_groups().unwrap().is_empty());
+    assert!(b.get_pending_welcomes(None).unwrap().is_empty());
+}
